@@ -202,6 +202,57 @@ func condString(e ast.Expr) string {
 	return fmt.Sprintf("%T", e)
 }
 
+
+// constants the model computes with, re-read from the source on every run: Go name -> (file, lean name).
+// The value is the first integer literal of the initialiser (`21000`, `uint64(400)`, `big.NewInt(1000000000)`).
+var wantedConsts = []struct{ file, goName, lean string }{
+	{"src/vm/param.go", "TxGas", "cTxGas"},
+	{"src/vm/param.go", "TxGasContractCreation", "cTxGasContractCreation"},
+	{"src/vm/param.go", "TxDataZeroGas", "cTxDataZeroGas"},
+	{"src/vm/param.go", "TxDataNonZeroGasEIP2028", "cTxDataNonZeroGas"},
+	{"src/common/constant.go", "GasMagnification", "cGasMagnification"},
+	{"src/executor/contract_executor.go", "defaultGasLimit", "cDefaultGasLimit"},
+	{"src/executor/contract_executor.go", "p017defaultGasLimit", "cP017GasLimit"},
+	{"src/executor/contract_executor.go", "p026defaultGasLimit", "cP026GasLimit"},
+	{"src/executor/contract_executor.go", "defaultGasPrice", "cGasPrice"},
+	{"src/common/constant_economy.go", "ValidatorStake", "cValidatorStake"},
+	{"src/common/constant_economy.go", "ProposerStake", "cProposerStake"},
+	{"src/common/constant_economy.go", "HeightAfterStake", "cHeightAfterStake"},
+	{"src/service/refund_manager.go", "refundHeight", "cRefundHeight"},
+}
+
+func extractConsts(fset *token.FileSet) string {
+	var sb strings.Builder
+	for _, w := range wantedConsts {
+		f, err := parser.ParseFile(fset, w.file, nil, 0)
+		val := ""
+		if err == nil {
+			ast.Inspect(f, func(n ast.Node) bool {
+				vs, ok := n.(*ast.ValueSpec)
+				if !ok {
+					return true
+				}
+				for i, nm := range vs.Names {
+					if nm.Name == w.goName && i < len(vs.Values) && val == "" {
+						ast.Inspect(vs.Values[i], func(m ast.Node) bool {
+							if bl, ok := m.(*ast.BasicLit); ok && bl.Kind == token.INT && val == "" {
+								val = strings.ReplaceAll(bl.Value, "_", "")
+							}
+							return true
+						})
+					}
+				}
+				return true
+			})
+		}
+		if val == "" {
+			val = "0 /- NOT FOUND in " + w.file + " -/"
+		}
+		fmt.Fprintf(&sb, "/-- `%s` (%s) -/\ndef %s : Nat := %s\n", w.goName, w.file, w.lean, val)
+	}
+	return sb.String()
+}
+
 // clockContext says what confines a clock reading: an enclosing condition that mentions the
 // "casting" situation, and/or being an argument of a logging call.
 func clockContext(stack []ast.Node) string {
@@ -685,6 +736,7 @@ func main() {
 		}
 		fmt.Fprintf(&sb, "/-- validator ids hard-coded in core.%s (as numbers) -/\ndef %s : List Nat := [%s]\n\n", nm.fn, nm.def, strings.Join(nums, ", "))
 	}
-	sb.WriteString("end Rangers.Generated.NondetSites\n")
+	sb.WriteString(extractConsts(fset))
+	sb.WriteString("\nend Rangers.Generated.NondetSites\n")
 	fmt.Print(sb.String())
 }
